@@ -12,6 +12,13 @@ NOTE = ("Trusted: Coq 8.16.1 kernel (full .vo build, vm_compute for finite sweep
         "regenerated from /repo on every run (defs.jq parse trees, native registry). Third-party crates are modelled by contract.")
 
 CLAIMED = {
+    "C20": ("Theorems: the day-count algorithms are inverse on all of Z (every day number maps to a date and back), produce well-formed "
+            "dates, agree with an independently written calendar (leap rule, month lengths) on every valid date of a 400-year era and are "
+            "400-year periodic; epochs outside the representable range are rejected, never wrapped. Correspondence: gmtime/mktime on integer "
+            "epochs and arrays against the Coq model; oracle: Python's datetime for gmtime/mktime/todate/fromdate, round trips (also "
+            "fractional, to the microsecond), rejection of non-finite/non-numeric inputs and malformed arrays, RFC 3339 texts with offsets. "
+            "Partial: fractional epochs and strftime/strptime by oracle only.", "7.20",
+            "Coq proof (calendar) + model/implementation correspondence + independent calendar oracle"),
     "C18": ("Partial. Theorems about the model of the in-place block (Cli/InPlace.v): at every prefix of the operation sequence (every "
             "crash point) the file holds its old bytes or - only after success - exactly the complete output; after success the output, "
             "the old permission bits and no temporary file; after failure the file untouched and no temporary file. Tie: final directory "
